@@ -1,51 +1,51 @@
 /-
-String lemmas for the formatter's inline text: `fields` and `joinWith " "` are inverse on words, `trimSpace` removes exactly the blank
+String lemmas for the formatter's inline text: `fieldsHtml` and `joinWith " "` are inverse on words, `trimHtml` removes exactly the blank
 margin, and `normalizeInlineText` is idempotent.
 -/
 import Vuego.Lemmas.FmtRaw
 namespace Vuego.FmtTree
 open Go Vuego
 
-def Word (w : Str) : Prop := w ≠ [] ∧ ∀ c ∈ w, isSpace c = false
+def Word (w : Str) : Prop := w ≠ [] ∧ ∀ c ∈ w, isHtmlSpace c = false
 
-theorem isSpace_space : isSpace ' ' = true := by decide
+theorem isHtmlSpace_space : isHtmlSpace ' ' = true := by decide
 
-/-! ### fields -/
+/-! ### fieldsHtml -/
 
-theorem fieldsAux_word (w : Str) (hw : ∀ c ∈ w, isSpace c = false) : ∀ (rest cur : Str), fieldsAux (w ++ rest) cur = fieldsAux rest (w.reverse ++ cur) := by
+theorem fieldsAux_word (w : Str) (hw : ∀ c ∈ w, isHtmlSpace c = false) : ∀ (rest cur : Str), fieldsHtmlAux (w ++ rest) cur = fieldsHtmlAux rest (w.reverse ++ cur) := by
   induction w with
   | nil => intro rest cur; rfl
   | cons c w ih =>
     intro rest cur
-    have hc : isSpace c = false := hw c (by simp)
-    simp only [List.cons_append, fieldsAux, hc, Bool.false_eq_true, ↓reduceIte]
+    have hc : isHtmlSpace c = false := hw c (by simp)
+    simp only [List.cons_append, fieldsHtmlAux, hc, Bool.false_eq_true, ↓reduceIte]
     rw [ih (fun x hx => hw x (by simp [hx]))]
     simp
 
-theorem fieldsAux_space (rest cur : Str) (h : cur ≠ []) : fieldsAux (' ' :: rest) cur = cur.reverse :: fieldsAux rest [] := by
+theorem fieldsAux_space (rest cur : Str) (h : cur ≠ []) : fieldsHtmlAux (' ' :: rest) cur = cur.reverse :: fieldsHtmlAux rest [] := by
   have hb : (cur == []) = false := by simpa using h
-  simp [fieldsAux, isSpace_space, hb]
+  simp [fieldsHtmlAux, isHtmlSpace_space, hb]
 
 /-- `strings.Fields(strings.Join(words, " ")) = words` -/
-theorem fields_join : ∀ (ws : List Str), (∀ w ∈ ws, Word w) → fields (joinWith [' '] ws) = ws
+theorem fields_join : ∀ (ws : List Str), (∀ w ∈ ws, Word w) → fieldsHtml (joinWith [' '] ws) = ws
   | [], _ => rfl
   | [w], h => by
     have hw := h w (by simp)
     have := fieldsAux_word w hw.2 [] []
     simp only [List.append_nil] at this
     have hb : (w.reverse == []) = false := by simpa using hw.1
-    simp [fields, joinWith, this, fieldsAux, hb]
+    simp [fieldsHtml, joinWith, this, fieldsHtmlAux, hb]
   | w :: v :: r, h => by
     have hw := h w (by simp)
     have ih := fields_join (v :: r) (fun x hx => h x (by simp [hx]))
-    unfold fields at ih ⊢
+    unfold fieldsHtml at ih ⊢
     simp only [joinWith, List.append_assoc, List.cons_append, List.nil_append]
     rw [fieldsAux_word w hw.2, List.append_nil, fieldsAux_space _ _ (by simpa using hw.1), ih]
     simp
 
-theorem fieldsAux_words : ∀ (t cur : Str), (∀ c ∈ cur, isSpace c = false) → ∀ w ∈ fieldsAux t cur, Word w
+theorem fieldsAux_words : ∀ (t cur : Str), (∀ c ∈ cur, isHtmlSpace c = false) → ∀ w ∈ fieldsHtmlAux t cur, Word w
   | [], cur, hcur, w, hw => by
-    simp only [fieldsAux] at hw
+    simp only [fieldsHtmlAux] at hw
     split at hw
     · simp at hw
     · rename_i hne
@@ -53,7 +53,7 @@ theorem fieldsAux_words : ∀ (t cur : Str), (∀ c ∈ cur, isSpace c = false) 
       subst hw
       exact ⟨by simpa using hne, fun c hc => hcur c (by simpa using hc)⟩
   | c :: t, cur, hcur, w, hw => by
-    simp only [fieldsAux] at hw
+    simp only [fieldsHtmlAux] at hw
     split at hw
     · split at hw
       · exact fieldsAux_words t [] (by simp) w hw
@@ -70,16 +70,16 @@ theorem fieldsAux_words : ∀ (t cur : Str), (∀ c ∈ cur, isSpace c = false) 
         · simpa using hsp
         · exact hcur x hx) w hw
 
-theorem fields_words (t : Str) : ∀ w ∈ fields t, Word w := fieldsAux_words t [] (by simp)
+theorem fields_words (t : Str) : ∀ w ∈ fieldsHtml t, Word w := fieldsAux_words t [] (by simp)
 
-theorem fieldsAux_ne_nil : ∀ (t cur : Str), (cur ≠ [] ∨ ∃ c ∈ t, isSpace c = false) → fieldsAux t cur ≠ []
+theorem fieldsAux_ne_nil : ∀ (t cur : Str), (cur ≠ [] ∨ ∃ c ∈ t, isHtmlSpace c = false) → fieldsHtmlAux t cur ≠ []
   | [], cur, h => by
     rcases h with h | ⟨c, hc, _⟩
     · have hb : (cur == []) = false := by simpa using h
-      simp [fieldsAux, hb]
+      simp [fieldsHtmlAux, hb]
     · simp at hc
   | c :: t, cur, h => by
-    simp only [fieldsAux]
+    simp only [fieldsHtmlAux]
     split
     · rename_i hsp
       split
@@ -97,7 +97,7 @@ theorem fieldsAux_ne_nil : ∀ (t cur : Str), (cur ≠ [] ∨ ∃ c ∈ t, isSpa
 /-! ### joined words -/
 
 theorem join_head_last : ∀ (ws : List Str), ws ≠ [] → (∀ w ∈ ws, Word w) →
-    (∃ c r, joinWith [' '] ws = c :: r ∧ isSpace c = false) ∧ (∃ c r, (joinWith [' '] ws).reverse = c :: r ∧ isSpace c = false)
+    (∃ c r, joinWith [' '] ws = c :: r ∧ isHtmlSpace c = false) ∧ (∃ c r, (joinWith [' '] ws).reverse = c :: r ∧ isHtmlSpace c = false)
   | [], h, _ => absurd rfl h
   | [w], _, hw => by
     obtain ⟨hne, hsp⟩ := hw w (by simp)
@@ -126,7 +126,7 @@ theorem join_head_last : ∀ (ws : List Str), ws ≠ [] → (∀ w ∈ ws, Word 
       rw [hl]
       simp
 
-/-! ### trimSpace removes exactly the blank margin -/
+/-! ### trimHtml removes exactly the blank margin -/
 
 theorem dropWhile_all {α : Type} (p : α → Bool) : ∀ (l : List α), (∀ x ∈ l, p x = true) → ∀ r, (l ++ r).dropWhile p = r.dropWhile p
   | [], _, _ => rfl
@@ -134,60 +134,60 @@ theorem dropWhile_all {α : Type} (p : α → Bool) : ∀ (l : List α), (∀ x 
     simp only [List.cons_append, List.dropWhile, h a (by simp)]
     exact dropWhile_all p l (fun x hx => h x (by simp [hx])) r
 
-theorem trimSpace_margins (pre J post : Str) (hpre : ∀ x ∈ pre, isSpace x = true) (hpost : ∀ x ∈ post, isSpace x = true)
-    (hh : ∃ c r, J = c :: r ∧ isSpace c = false) (hl : ∃ c r, J.reverse = c :: r ∧ isSpace c = false) :
-    trimSpace (pre ++ J ++ post) = J := by
+theorem trimSpace_margins (pre J post : Str) (hpre : ∀ x ∈ pre, isHtmlSpace x = true) (hpost : ∀ x ∈ post, isHtmlSpace x = true)
+    (hh : ∃ c r, J = c :: r ∧ isHtmlSpace c = false) (hl : ∃ c r, J.reverse = c :: r ∧ isHtmlSpace c = false) :
+    trimHtml (pre ++ J ++ post) = J := by
   obtain ⟨c, r, hJ, hc⟩ := hh
   obtain ⟨d, t, hJr, hd⟩ := hl
-  unfold trimSpace trimLeft trimRight
-  rw [List.append_assoc, dropWhile_all isSpace pre hpre, hJ]
+  unfold trimHtml trimHtmlLeft trimHtmlRight
+  rw [List.append_assoc, dropWhile_all isHtmlSpace pre hpre, hJ]
   simp only [List.cons_append, List.dropWhile, hc]
   have : (c :: (r ++ post)).reverse = post.reverse ++ (c :: r).reverse := by simp
-  rw [this, dropWhile_all isSpace post.reverse (fun x hx => hpost x (by simpa using hx)), ← hJ, hJr]
+  rw [this, dropWhile_all isHtmlSpace post.reverse (fun x hx => hpost x (by simpa using hx)), ← hJ, hJr]
   simp only [List.dropWhile, hd]
   rw [← hJr]; simp
 
 /-! ### normalizeInlineText -/
 
-theorem exists_nonspace_of_trim_ne (s : Str) (h : trimSpace s ≠ []) : ∃ c ∈ trimSpace s, isSpace c = false := by
-  unfold trimSpace trimRight at *
-  cases hr : ((trimLeft s).reverse.dropWhile isSpace) with
+theorem exists_nonspace_of_trim_ne (s : Str) (h : trimHtml s ≠ []) : ∃ c ∈ trimHtml s, isHtmlSpace c = false := by
+  unfold trimHtml trimHtmlRight at *
+  cases hr : ((trimHtmlLeft s).reverse.dropWhile isHtmlSpace) with
   | nil => simp [hr] at h
   | cons c r =>
-    refine ⟨c, ?_, dropWhile_head_false isSpace _ c r hr⟩
+    refine ⟨c, ?_, dropWhile_head_false isHtmlSpace _ c r hr⟩
     simp [hr]
 
-theorem normalize_blank (s : Str) (h : trimSpace s = []) : normalizeInlineText (normalizeInlineText s) = normalizeInlineText s := by
-  have hb : (trimSpace s == []) = true := by simpa using h
+theorem normalize_blank (s : Str) (h : trimHtml s = []) : normalizeInlineText (normalizeInlineText s) = normalizeInlineText s := by
+  have hb : (trimHtml s == []) = true := by simpa using h
   unfold normalizeInlineText
   simp only [hb, ↓reduceIte]
   split <;> decide
 
 /-- INLINE TEXT IS STABLE UNDER RE-FORMATTING: normalising the normalised text changes nothing -/
 theorem normalizeInlineText_idem (s : Str) : normalizeInlineText (normalizeInlineText s) = normalizeInlineText s := by
-  by_cases h : trimSpace s = []
+  by_cases h : trimHtml s = []
   · exact normalize_blank s h
-  · have hb : (trimSpace s == []) = false := by simpa using h
+  · have hb : (trimHtml s == []) = false := by simpa using h
     -- the words of the text, and their joined form
-    have hW : ∀ w ∈ fields (trimSpace s), Word w := fields_words _
-    have hWne : fields (trimSpace s) ≠ [] := by
+    have hW : ∀ w ∈ fieldsHtml (trimHtml s), Word w := fields_words _
+    have hWne : fieldsHtml (trimHtml s) ≠ [] := by
       obtain ⟨c, hc, hcs⟩ := exists_nonspace_of_trim_ne s h
       exact fieldsAux_ne_nil _ [] (Or.inr ⟨c, hc, hcs⟩)
     obtain ⟨hhead, hlast⟩ := join_head_last _ hWne hW
-    generalize hJ : joinWith [' '] (fields (trimSpace s)) = J at hhead hlast
+    generalize hJ : joinWith [' '] (fieldsHtml (trimHtml s)) = J at hhead hlast
     -- the shape of the result: optional space, J, optional space
     have shape : ∃ pre post : Str, (pre = [] ∨ pre = [' ']) ∧ (post = [] ∨ post = [' ']) ∧ normalizeInlineText s = pre ++ J ++ post := by
       unfold normalizeInlineText
       simp only [hb, Bool.false_eq_true, ↓reduceIte, hJ]
-      by_cases h1 : (s.head?.map isSpace).getD false = true <;> by_cases h2 : (s.getLast?.map isSpace).getD false = true
+      by_cases h1 : (s.head?.map isHtmlSpace).getD false = true <;> by_cases h2 : (s.getLast?.map isHtmlSpace).getD false = true
       · exact ⟨[' '], [' '], Or.inr rfl, Or.inr rfl, by simp [h1, h2]⟩
       · exact ⟨[' '], [], Or.inr rfl, Or.inl rfl, by simp [h1, h2]⟩
       · exact ⟨[], [' '], Or.inl rfl, Or.inr rfl, by simp [h1, h2]⟩
       · exact ⟨[], [], Or.inl rfl, Or.inl rfl, by simp [h1, h2]⟩
     obtain ⟨pre, post, hpre, hpost, hN⟩ := shape
-    have hpreS : ∀ x ∈ pre, isSpace x = true := by rcases hpre with rfl | rfl <;> simp [isSpace_space]
-    have hpostS : ∀ x ∈ post, isSpace x = true := by rcases hpost with rfl | rfl <;> simp [isSpace_space]
-    have htrim : trimSpace (pre ++ J ++ post) = J := trimSpace_margins pre J post hpreS hpostS hhead hlast
+    have hpreS : ∀ x ∈ pre, isHtmlSpace x = true := by rcases hpre with rfl | rfl <;> simp [isHtmlSpace_space]
+    have hpostS : ∀ x ∈ post, isHtmlSpace x = true := by rcases hpost with rfl | rfl <;> simp [isHtmlSpace_space]
+    have htrim : trimHtml (pre ++ J ++ post) = J := trimSpace_margins pre J post hpreS hpostS hhead hlast
     obtain ⟨c, r, hJc, hc⟩ := hhead
     obtain ⟨d, t, hJd, hd⟩ := hlast
     have hJne : J ≠ [] := by rw [hJc]; simp
@@ -197,18 +197,18 @@ theorem normalizeInlineText_idem (s : Str) : normalizeInlineText (normalizeInlin
     simp only [htrim, hJb, Bool.false_eq_true, ↓reduceIte]
     rw [← hJ, fields_join _ hW, hJ]
     -- the boundary flags of pre ++ J ++ post are exactly pre and post
-    have hhd : ((pre ++ J ++ post).head?.map isSpace).getD false = (pre == [' ']) := by
+    have hhd : ((pre ++ J ++ post).head?.map isHtmlSpace).getD false = (pre == [' ']) := by
       rcases hpre with rfl | rfl
       · simp [hJc, hc]
-      · simp [isSpace_space]
-    have hlt : ((pre ++ J ++ post).getLast?.map isSpace).getD false = (post == [' ']) := by
+      · simp [isHtmlSpace_space]
+    have hlt : ((pre ++ J ++ post).getLast?.map isHtmlSpace).getD false = (post == [' ']) := by
       rcases hpost with rfl | rfl
       · have hg : (pre ++ J ++ []).getLast? = some d := by
           have : (pre ++ J ++ []).reverse = d :: (t ++ pre.reverse) := by simp [hJd]
           rw [List.getLast?_eq_head?_reverse, this]; rfl
         rw [hg]
         simp [hd]
-      · simp [isSpace_space]
+      · simp [isHtmlSpace_space]
     rw [hhd, hlt]
     rcases hpre with rfl | rfl <;> rcases hpost with rfl | rfl <;> simp
 
